@@ -372,7 +372,7 @@ Definition hist_spec (interval from to : N) (t : mtree) (impl : list (N * N)) : 
    (every finite binary64 is an integer number of such units); no replay of the merge tree *)
 Definition zval (x : sf) : Z :=
   match x with
-  | S754_finite s m e => (if s then -1 else 1) * Zpos m * 2 ^ (e + 1074)
+  | S754_finite s m e => (if s then -1 else 1) * Z.shiftl (Zpos m) (e + 1074)
   | _ => 0
   end.
 
